@@ -629,6 +629,7 @@ func (s *Search) Explore() {
 		for _, seed := range seeds {
 			st := state{}
 			ok := true
+			lastKey := ""
 			// execute the seed op by op so that hints are recorded and every seed step is checked too
 			for _, op := range seed {
 				op := op
@@ -652,11 +653,14 @@ func (s *Search) Explore() {
 					break
 				}
 				st = state{Path: append(append([]Op{}, st.Path...), op), Hints: append(append([]Res{}, st.Hints...), r.Res)}
-				if !seen[r.Key] {
-					seen[r.Key] = true
-				}
+				lastKey = r.Key
 			}
 			if ok {
+				// only the seed's final state counts as visited: its intermediate states are not
+				// expanded here and must stay reachable from the other seeds
+				if lastKey != "" {
+					seen[lastKey] = true
+				}
 				frontier = append(frontier, st)
 			}
 		}
